@@ -397,7 +397,7 @@ func c07Stress(run *hx.Run, transactions int, readers int) {
 			wg.Add(1)
 			go func(r int) {
 				defer wg.Done()
-				reopen := []int{0, 0, 7, 50, 0, 3}[r%6] // long-lived handles and handles reopened every n reads
+				reopen := []int{0, 1, 7, 50, 0, 3}[r%6] // long-lived handles and handles reopened every n reads
 				cmd := exec.Command(exe, "worker", "c07reader", path, clkPath, fmt.Sprint(run.Seed*100+int64(r)), fmt.Sprint(reopen))
 				cmd.Env = append(os.Environ(), "GOTRACEBACK=all")
 				var buf bytes.Buffer
